@@ -68,3 +68,55 @@ package builder
 // FRESH array holding `underPath ++ old path` (so two re-rooted paths never share a backing array). The
 // obligation that mergeBuilderInto builds these paths in no other way is structural (generated from its
 // SSA: flow:builder.mergeBuilderInto:...); the loops of mergeBuilderInto are not under contract.
+//
+// properties: the selected builders get the configured properties appended (and a trail entry); nothing
+// else about them changes and every other builder is left as it was.
+//@ func Properties$1
+//@   property C17
+//@   requires selector != nil
+//@   modifies builders[*], spare-capacity
+//@   ensures  same: result.0 == builders && result.1 == nil
+//@   ensures  selected: forall i: int :: 0 <= i && i < len(builders) && old(apply(selector, schemas, builders[i])) ==> len(builders[i].Properties) == old(len(builders[i].Properties)) + len(properties) && trailExtended(builders[i].VeneerTrail, old(builders[i].VeneerTrail)) && with(with(builders[i], "Properties", old(builders[i].Properties)), "VeneerTrail", old(builders[i].VeneerTrail)) == old(builders[i])
+//@   ensures  others: forall i: int :: 0 <= i && i < len(builders) && !old(apply(selector, schemas, builders[i])) ==> builders[i] == old(builders[i])
+//@   loop 0:
+//@     invariant done: forall i: int :: 0 <= i && i <= $i && old(apply(selector, schemas, builders[i])) ==> len(builders[i].Properties) == old(len(builders[i].Properties)) + len(properties) && trailExtended(builders[i].VeneerTrail, old(builders[i].VeneerTrail)) && with(with(builders[i], "Properties", old(builders[i].Properties)), "VeneerTrail", old(builders[i].VeneerTrail)) == old(builders[i])
+//@     invariant doneothers: forall i: int :: 0 <= i && i <= $i && !old(apply(selector, schemas, builders[i])) ==> builders[i] == old(builders[i])
+//@     invariant todo: forall i: int :: $i < i && i < len(builders) ==> builders[i] == old(builders[i])
+//
+// add_factory: a selected builder without constructor arguments gets the factory appended, nothing else
+// about it changes; a selected builder WITH constructor arguments makes the rule fail; other builders are
+// left as they were.
+//@ func AddFactory$1
+//@   property C17
+//@   requires selector != nil
+//@   modifies builders[*], spare-capacity
+//@   ensures  same: result.1 == nil ==> result.0 == builders
+//@   ensures  rejected: result.1 == nil ==> (forall i: int :: 0 <= i && i < len(builders) && old(apply(selector, schemas, builders[i])) ==> old(len(builders[i].Constructor.Args)) == 0)
+//@   ensures  selected: result.1 == nil ==> (forall i: int :: 0 <= i && i < len(builders) && old(apply(selector, schemas, builders[i])) ==> len(builders[i].Factories) == old(len(builders[i].Factories)) + 1 && builders[i].Factories[old(len(builders[i].Factories))] == factory && with(builders[i], "Factories", old(builders[i].Factories)) == old(builders[i]))
+//@   ensures  others: forall i: int :: 0 <= i && i < len(builders) && !old(apply(selector, schemas, builders[i])) ==> builders[i] == old(builders[i])
+//@   loop 0:
+//@     invariant done: forall i: int :: 0 <= i && i <= $i && old(apply(selector, schemas, builders[i])) ==> old(len(builders[i].Constructor.Args)) == 0 && len(builders[i].Factories) == old(len(builders[i].Factories)) + 1 && builders[i].Factories[old(len(builders[i].Factories))] == factory && with(builders[i], "Factories", old(builders[i].Factories)) == old(builders[i])
+//@     invariant doneothers: forall i: int :: 0 <= i && i <= $i && !old(apply(selector, schemas, builders[i])) ==> builders[i] == old(builders[i])
+//@     invariant todo: forall i: int :: $i < i && i < len(builders) ==> builders[i] == old(builders[i])
+//
+// duplicate: the builders that were there come back first, as they were; each builder appended after them
+// is a copy of a selected builder (src maps it to that builder, in order) under the new name: same
+// package, and object and constructor related by the type-derived copy relation (faithful, sharing nothing).
+// (Factories, properties and options of the duplicate are not specified here: their element-wise copy
+// relations did not discharge through the loop.)
+//@ spec duplicatesOf(sel, ss, name, excl, olds, n, news) = existsfn src: int -> int ::
+//@        (forall k: int :: 0 <= k && k < len(news) ==> 0 <= src(k) && src(k) < n && apply(sel, ss, olds[src(k)]) && news[k].Name == name && news[k].Package == olds[src(k)].Package
+//@              && copyrel(olds[src(k)].For, news[k].For) && copyrel(olds[src(k)].Constructor, news[k].Constructor))
+//@     && (forall k1, k2: int :: 0 <= k1 && k1 < k2 && k2 < len(news) ==> src(k1) < src(k2))
+//@     && (forall i: int :: 0 <= i && i < n && apply(sel, ss, olds[i]) ==> (exists k: int @dk :: 0 <= k && k < len(news) && src(k) == i))
+//@ func Duplicate$1
+//@   property C17
+//@   requires selector != nil
+//@   modifies spare-capacity
+//@   ensures  noerr: result.1 == nil
+//@   ensures  kept: len(result.0) >= len(builders) && (forall i: int :: 0 <= i && i < len(builders) ==> result.0[i] == old(builders[i]))
+//@   ensures  named: forall k: int :: len(builders) <= k && k < len(result.0) ==> result.0[k].Name == duplicateName
+//@   loop 0:
+//@     invariant fresh: base(newBuilders) == 0 || fresh(newBuilders)
+//@     invariant unchanged: forall i: int :: 0 <= i && i < len(builders) ==> builders[i] == old(builders[i])
+//@     invariant dups: duplicatesOf(selector, schemas, duplicateName, excludeOptions, builders, $i + 1, newBuilders) witness src(k) := ite($i >= 0 && k == len(newBuilders) - 1 && apply(selector, schemas, builders[$i]), $i, skolem("src", "last", k)) witness dk := ite(i == $i, len(newBuilders) - 1, skolem("dk", "last", i))
